@@ -113,6 +113,11 @@ func c15Rescene(a *dmgref.Scene, seed uint64) *dmgref.Scene {
 	if r.Bool() {
 		b.WX, b.WY = uint8(r.Range(7, 166)), uint8(r.Intn(160))
 	}
+	if a.WY >= 144 && r.Chance(3, 4) {
+		// a window that was below the screen comes up (only its row register is stored anew)
+		b.WX, b.WY = a.WX, uint8(r.Intn(140))
+		b.LCDC |= 0x20
+	}
 	if r.Bool() {
 		b.BGP, b.OBP0, b.OBP1 = r.Byte(), r.Byte(), r.Byte()
 	}
@@ -168,6 +173,10 @@ func c15Scene(seed uint64) *dmgref.Scene {
 				s.SCY = uint8(-int(s.WY) + r.Range(-2, 2))
 			}
 		}
+	}
+	if r.Chance(1, 8) {
+		s.WY = uint8(r.Range(144, 255)) // the window switched on but below the screen
+		s.LCDC |= 0x20
 	}
 	s.BGP, s.OBP0, s.OBP1 = r.Byte(), r.Byte(), r.Byte()
 	if r.Bool() {
@@ -275,13 +284,22 @@ func (c15) Execute(sc *engine.Scenario) *engine.Result {
 		m.Write(0x8000+uint16(a), s.VRAM[a])
 	}
 	m.OAM.VerifPoke(s.OAM)
-	m.Write(0xff42, s.SCY)
-	m.Write(0xff43, s.SCX)
-	m.Write(0xff4a, s.WY)
-	m.Write(0xff4b, s.WX)
-	m.Write(0xff47, s.BGP)
-	m.Write(0xff48, s.OBP0)
-	m.Write(0xff49, s.OBP1)
+	// the registers are stored in an order of the seed's choosing (a guest may store them in any order)
+	storeRegs := func(s *dmgref.Scene, seed uint64, withLCDC bool) {
+		regs := [][2]uint16{{0xff42, uint16(s.SCY)}, {0xff43, uint16(s.SCX)}, {0xff4a, uint16(s.WY)}, {0xff4b, uint16(s.WX)}, {0xff47, uint16(s.BGP)}, {0xff48, uint16(s.OBP0)}, {0xff49, uint16(s.OBP1)}}
+		if withLCDC {
+			regs = append(regs, [2]uint16{0xff40, uint16(s.LCDC)}) // LCD on before and after: one more register
+		}
+		pr := engine.NewRand(seed ^ 0x0bde)
+		for i := len(regs) - 1; i > 0; i-- {
+			j := pr.Intn(i + 1)
+			regs[i], regs[j] = regs[j], regs[i]
+		}
+		for _, rv := range regs {
+			m.Write(rv[0], uint8(rv[1]))
+		}
+	}
+	storeRegs(s, uint64(sc.P("sseed", 1)), false)
 	if sc.P("cpu", 0) == 0 {
 		m.Park()
 	} else {
@@ -421,15 +439,9 @@ func (c15) Execute(sc *engine.Scenario) *engine.Result {
 		// with the LCD switched off at an arbitrary point of a frame; the frames after the
 		// change are the composition of the new scene only
 		b := c15Rescene(s, uint64(sc.P("sseed", 1))^0xb5ce)
-		apply := func() {
+		apply := func(withLCDC bool) {
 			m.OAM.VerifPoke(b.OAM)
-			m.Write(0xff42, b.SCY)
-			m.Write(0xff43, b.SCX)
-			m.Write(0xff4a, b.WY)
-			m.Write(0xff4b, b.WX)
-			m.Write(0xff47, b.BGP)
-			m.Write(0xff48, b.OBP0)
-			m.Write(0xff49, b.OBP1)
+			storeRegs(b, uint64(sc.P("sseed", 1))^0x77, withLCDC)
 		}
 		done := false
 		offAt := m.N + uint64(sc.P("off_at", 0))
@@ -441,8 +453,7 @@ func (c15) Execute(sc *engine.Scenario) *engine.Result {
 			switch mode {
 			case 1:
 				if m.Read(0xff41)&3 == 1 && m.Read(0xff44) >= 145 {
-					apply()
-					m.Write(0xff40, b.LCDC)
+					apply(true)
 					done = true
 					res.Fault("scene_change_in_vblank")
 					cur, curTag, stableSince, stableNeed = b, "after-scene-change/", m.N, 17556+128
@@ -454,7 +465,7 @@ func (c15) Execute(sc *engine.Scenario) *engine.Result {
 					cur = nil
 				}
 				if m.N == offAt+uint64(sc.P("off_for", 1)) {
-					apply()
+					apply(false)
 					m.Write(0xff40, b.LCDC)
 					done = true
 					res.Fault("scene_change_with_lcd_off")
